@@ -52,12 +52,28 @@ def meta_token(rec):
     return json.dumps([rec.id, rec.name, rec.description, list(rec.dbxrefs), ann], sort_keys=True)
 
 
+def ordered_parts(loc, n):
+    """the parts of a location in the order the location lists them, each as the positions it covers
+    (mod n) in 5'->3' reading order of its strand - the order of a join is part of what it denotes"""
+    out = []
+    if loc is None or not n:
+        return out
+    for p in loc.parts:
+        st = p.strand if p.strand in (1, -1) else 0
+        idx = [i % n for i in range(int(p.start), int(p.end))]
+        if st == -1:
+            idx = idx[::-1]
+        out.append({"st": st, "idx": idx})
+    return out
+
+
 def project(rec):
     """real (Circular/Seq)Record -> abstract record (json)"""
     n = len(rec.seq)
     feats = []
     for f in rec.features:
-        feats.append({"lab": feature_label(f), "parts": runs(loc_pairs(f.location, n), n) if n else []})
+        feats.append({"lab": feature_label(f), "parts": runs(loc_pairs(f.location, n), n) if n else [],
+                      "oparts": ordered_parts(f.location, n)})
     track = list(rec.letter_annotations.get("q", [])) if rec.letter_annotations else []
     from moclo.record import CircularRecord
     return {"seq": dna.enc(rec.seq), "feats": feats, "track": [int(x) for x in track], "meta": meta_token(rec),
